@@ -348,19 +348,13 @@ theorem multiplex_bound_aux (cfg : Cfg) (tbl : List Nat) (ops : List Op) (p : Na
 
 /-! ### no Rust panic -/
 
-def SafeInv : State → Held → Prop := fun s _ => s.panic = none ∧ s.fdtid + 1 < 4294967296
+def SafeInv : State → Held → Prop := fun s _ => s.panic = none
 
 theorem SafeInv.same {s : State} {L : Held} (h : SafeInv s L) (s' : State) (L' : Held)
-    (hp : s'.panic = s.panic) (hf : s'.fdtid = s.fdtid) : SafeInv s' L' := by
-  unfold SafeInv; rw [hp, hf]; exact h
+    (hp : s'.panic = s.panic) (_hf : s'.fdtid = s.fdtid) : SafeInv s' L' := by
+  unfold SafeInv; rw [hp]; exact h
 
-theorem SafeInv.publish {s : State} {L : Held} (h : SafeInv s L) (now : Nat) : SafeInv (publish s now) L := by
-  refine ⟨?_, ?_⟩
-  · show (if s.fdtid + 1 ≥ 4294967296 then (s.panic <|> some "fdtid add overflow") else s.panic) = none
-    rw [if_neg (by have := h.2; omega)]; exact h.1
-  · show (s.fdtid + 1) % 1048576 + 1 < 4294967296
-    have := Nat.mod_lt (s.fdtid + 1) (by decide : 0 < 1048576)
-    omega
+theorem SafeInv.publish {s : State} {L : Held} (h : SafeInv s L) (now : Nat) : SafeInv (publish s now) L := h
 
 theorem fdtPop_panic (s : State) : (fdtPop s).panic = s.panic := by unfold fdtPop; split <;> rfl
 theorem fdtPop_fdtid (s : State) : (fdtPop s).fdtid = s.fdtid := by unfold fdtPop; split <;> rfl
@@ -422,8 +416,8 @@ theorem SafeInv.closedOps : ClosedOps0 SafeInv where
   emitPublish := fun _ _ _ _ h => h
   complete := fun _ _ _ h => h
 
-theorem safe_run (cfg : Cfg) (tbl : List Nat) (ops : List Op) (h : cfg.fdtStartId + 1 < 4294967296) :
+theorem safe_run (cfg : Cfg) (tbl : List Nat) (ops : List Op) :
     (run (init cfg tbl) ops).panic = none :=
-  (inv_run SafeInv.closed SafeInv.closedOps cfg tbl ⟨rfl, h⟩ ops).1
+  inv_run SafeInv.closed SafeInv.closedOps cfg tbl rfl ops
 
 end Flute.Sched
